@@ -24,6 +24,7 @@ FEATURESETS = {
     "extras": ["--features", "extras"],
     "pretty": ["--features", "pretty"],
     "dbg": ["--features", "dbg"],
+    "derive_extras": ["--features", "derive_extras"],
 }
 
 
